@@ -299,14 +299,89 @@ def extra_obligations(world, tier, seed):
     return out
 
 
+DOC_ROUNDTRIP = r'''
+import itertools, json
+from graphql import parse, print_ast
+# string values (block and quoted) at every nesting depth of a printed document: parse -> print ->
+# parse must give the same tree, and printing is a fixed point.  The printer indents nested
+# selections, arguments and descriptions: interior blank / whitespace-only lines and characters that
+# Python (but not GraphQL) treats as line breaks are the interesting values.
+LINES = ["a", "", " ", "  b", "\t", "\u2028x", "\x0c", " \u2029", "c ", '\\"""']
+TEMPLATES = [
+    '{ f(a: %s) }',
+    'query Q($v: String = %s) { a { b { c(x: [%s]) } } }',
+    '{ a { b(x: {k: %s}) @d(y: %s) } }',
+    '%s type T { %s f(%s a: String = %s): Int }',
+    'extend schema @d(a: %s) %s directive @e(%s x: [String] = [%s]) on FIELD',
+    '%s query { a }',
+    '%s fragment F on T { a(x: %s) }',
+]
+bad = None
+n = 0
+values = []
+for k in (1, 2, 3):
+    for tup in itertools.product(LINES, repeat=k):
+        values.append("\n".join(tup))
+for raw in values:
+    for lit in ('"""' + raw + '"""', '"""\n' + raw + '\n"""'):
+        for t in TEMPLATES:
+            src = t.replace("%s", lit)
+            try:
+                doc = parse(src, no_location=True)
+            except Exception:
+                continue
+            n += 1
+            try:
+                printed = print_ast(doc)
+                doc2 = parse(printed, no_location=True)
+            except Exception as e:
+                bad = {"source": src, "observed": f"{type(e).__name__}: {e}"}
+                break
+            if doc2 != doc:
+                bad = {"source": src, "printed": printed, "observed": "print -> parse gives a different tree"}
+                break
+            if print_ast(doc2) != printed:
+                bad = {"source": src, "printed": printed, "observed": "printing is not a fixed point"}
+                break
+        if bad:
+            break
+    if bad:
+        break
+print("DOCRT " + json.dumps(bad) + f" ({n} documents)")
+'''
+
+
+def _doc_roundtrip():
+    """print -> parse round trip of whole documents whose string values sit at nesting depth 0-3
+    (the printer's indentation and wrapping helpers are outside the verified subset: str.split /
+    replace on built strings) - BOUNDED."""
+    import json
+    rc, outp = run_native(DOC_ROUNDTRIP, timeout=900)
+    res, ok = None, False
+    for line in outp.splitlines():
+        if line.startswith("DOCRT "):
+            res, ok = json.loads(line[6:line.rindex(" (")]), True
+    if not ok:
+        raise RuntimeError(outp[-600:])
+    return [{"id": "C08/bounded/documents-with-string-values-at-depth",
+             "function": "print_ast (indent, block, join, wrap, leave_string_value) / parse",
+             "tool": "parse -> print_ast -> parse over generated documents, native",
+             "bound": "block-string values of 1-3 lines over 10 line shapes (blank, white-space only, indented, "
+                      "U+2028/U+2029/FF inside, escaped triple quote) x 2 literal layouts x 7 document templates "
+                      "(arguments, variable defaults, list / object values, directive arguments, descriptions "
+                      "of types, fields, arguments, operations and fragments) at nesting depth 0-3",
+             "failed": res is not None, "input": res, "output": outp[-600:]}]
+
+
 def bounded_checks(tier, seed):
     """Thorough tier: the bounded stand-in search of this property also runs when nothing is
     undecided (deeper exploration, labelled bounded; a failing input is replayed by construction)."""
+    out = _doc_roundtrip()
     if tier != "thorough":
-        return []
+        return out
     from pyvc.checker import run_standin
     res = run_standin(STANDIN, seed)
-    return [{"id": "C08/bounded/standin-search", "function": STANDIN,
+    return out + [{"id": "C08/bounded/standin-search", "function": STANDIN,
              "tool": "native differential search", "bound": STANDIN_BUDGET,
              "failed": bool(res), "input": res, "output": ""}]
 
